@@ -7,6 +7,7 @@ struct VfShared
 {
   int status;
   int finished;
+  int sawNonDefault;
   int ntaken;
   short taken[VF_MAXCHOICES];
   short arity[VF_MAXCHOICES];
@@ -30,6 +31,7 @@ struct VfConfig
   int processors;        /* value reported by sysconf(_SC_NPROCESSORS_ONLN) */
   long long clockStart;  /* virtual clock at the start of the execution, ns */
   int trace;
+  int delayBounded;      /* 1: a non-default choice at a blocking point costs one unit of the preemption budget as well (delay bounding) */
 };
 extern struct VfShared* vf_shared;
 extern struct VfConfig vf_config;
